@@ -32,6 +32,10 @@ def parseRaise (j : Json) : Raise :=
 
 def parseEffect (j : Json) : Except String Effect := do
   let k ← jstr j "k"
+  if k == "alias" then
+    let attr ← jstr j "attr"
+    let src ← jstr j "src"
+    return .alias attr.toList (splitDot src)
   let target ← jstr j "target"
   let tag ← jstr j "tag"
   if k == "setattr" then
@@ -142,8 +146,10 @@ def parseCall (j : Json) : Except String (Call × List Dotted) := do
       pure (.code (some (ds.map splitDot)), ds.map splitDot)
   | _ => throw s!"call kind {kind}"
 
+/-- the hypotheses `DbKeyed` and `DbShape` of the theorems, checked on the table of this case -/
 def dbKeyed (db : DB) : Bool :=
-  db.all fun (k, imps) => imps.all fun imp => imp.importAs == k
+  db.all fun (k, imps) => imps.all fun imp =>
+    imp.importAs == k && (imp.importAs == imp.fullname || imp.importAs.length == 1)
 
 def handle (j : Json) : Except String Json := do
   let op ← jstr j "op"
